@@ -630,9 +630,43 @@ func checkC13(c *run.Ctx) {
 			}
 		})
 	})
+	// (5) a usable result marshals whatever the process marshalled before: each corpus document is checked right
+	// after a document whose marshalling fails part-way (non-finite float deep inside nested mappings, K3) or whose
+	// parse fails part-way (value cycle below a mapping), on the same goroutine
+	c.Phase("after-failure", func() {
+		corpus := loadCorpus(c)
+		poison := []string{
+			"agents: {limits: {weight: .inf}}\nsteps: [{command: a}]\n",
+			"env: {A: b}\nx: {y: {z: [1, {w: .nan}]}}\nsteps:\n  - command: a\n    retry: {automatic: {limit: -.inf}}\n",
+			"steps:\n  - llama: {drama: {karma: .inf}}\n  - wait\n",
+			"steps:\n  - command: a\n    plugins:\n      - docker#v1: {deep: {deeper: {x: .nan}}}\n",
+			"name: build\nimage: &i [*i]\nsteps: []\n",
+			"steps:\n  - command: a\n    env: &e {A: *e}\n",
+			"base: &b {name: x, image: &j {k: *j}}\nsteps:\n  - <<: *b\n    command: a\n",
+		}
+		c.Parallel("af", c.N(400, 6000), func(i int, r *rand.Rand) {
+			id := run.CaseID("af", i)
+			bad := poison[r.IntN(len(poison))]
+			for k, m := 0, 1+r.IntN(3); k < m; k++ {
+				if p, err := pipeline.Parse(strings.NewReader(bad)); p != nil && (err == nil || warning.Is(err)) {
+					_, _ = safeJSONMarshal(p)
+					_, _ = safeYAMLMarshal(p)
+				}
+			}
+			data := corpus[r.IntN(len(corpus))]
+			jr.write("", id, string(data))
+			out, ok := c13Check(c, id, data, "corpus-after-failed-marshal-or-parse")
+			jr.done(id)
+			c.Eval(1)
+			if ok {
+				c.Count("outcome_"+out.class, 1)
+				c.Count("documents_checked_right_after_a_failure", 1)
+			}
+		})
+	})
 	jr.clear()
 	c.Finish("exploration",
-		"(1) the unmutated corpus (documents extracted from the repository's tests plus hand-written real-world pipelines with anchors/merges, JSON, legacy type keys, and hostile alias/merge cycle shapes); (2) seeded mutations of it (bit flips, truncation, dictionary insertion of YAML indicators and pipeline keys, splices between documents, duplicated line ranges, indentation damage, deletions, token replacement by another type, line swaps; 1-4 per input); (3) grammar documents with one node's kind swapped at a random position (scalar/list/mapping/null/bool/float/empty/deep) and non-string `type` values; (4) anchor/alias/merge graphs from the C07 generator, three quarters of them with value or merge cycles (incl. self-referential merge sequences), embedded as a step, merged into a command step and as a top-level extra. Inputs over 64 KiB or with alias expansion over 2*10^5 nodes are dropped (counted). Monitors: no panic; wall clock per input; for usable results Steps non-nil, no nil step, step count = the input's step sequence obtained independently through yaml.Node + the harness merge resolver (recursively in groups), unknown steps equal the input entry verbatim, at least one reported cause per fallback, json.Marshal and yaml.Marshal succeed. distinct_nontrivial counts distinct (generator, outcome class, has unknowns, mutation kinds) in a sample",
+		"(5) corpus documents checked right after a document whose marshalling or parsing fails part-way, on the same goroutine; (1) the unmutated corpus (documents extracted from the repository's tests plus hand-written real-world pipelines with anchors/merges, JSON, legacy type keys, and hostile alias/merge cycle shapes); (2) seeded mutations of it (bit flips, truncation, dictionary insertion of YAML indicators and pipeline keys, splices between documents, duplicated line ranges, indentation damage, deletions, token replacement by another type, line swaps; 1-4 per input); (3) grammar documents with one node's kind swapped at a random position (scalar/list/mapping/null/bool/float/empty/deep) and non-string `type` values; (4) anchor/alias/merge graphs from the C07 generator, three quarters of them with value or merge cycles (incl. self-referential merge sequences), embedded as a step, merged into a command step and as a top-level extra. Inputs over 64 KiB or with alias expansion over 2*10^5 nodes are dropped (counted). Monitors: no panic; wall clock per input; for usable results Steps non-nil, no nil step, step count = the input's step sequence obtained independently through yaml.Node + the harness merge resolver (recursively in groups), unknown steps equal the input entry verbatim, at least one reported cause per fallback, json.Marshal and yaml.Marshal succeed. distinct_nontrivial counts distinct (generator, outcome class, has unknowns, mutation kinds) in a sample",
 		nil,
 		[]string{"K3 (non-finite floats -> json.Marshal error) and K5 (whitespace-leading multi-line string -> yaml.Marshal error) are recognised by a narrow predicate (failure mode + presence of the trigger in the data) and counted, other marshal failures are violations", "a group entry may come back as a group or as one verbatim unknown step", "a process-fatal event (stack overflow) is attributed by the driver through the per-worker journal"})
 	_ = errors.Is
